@@ -291,6 +291,12 @@ def _drop_defaults(args, defaults):
     return {k: v for k, v in args.items() if not (k in defaults and _is_default(v, defaults[k]))}
 
 
+def _flag(case, v):
+    """a boolean flag as the caller may hold it: a Python bool, a numpy bool (np.any(...), a comparison) or 0/1"""
+    ft = case.get("flag_type")
+    return np.bool_(v) if ft == "np" else (int(v) if ft == "int" else v)
+
+
 def observe(case):
     """run the real code under the spy; returns (result dict, recorded calls)"""
     op = case["op"]
@@ -305,7 +311,7 @@ def observe(case):
                 if case.get("x_form") != "list":        # "x: list or np.array"
                     x = np.array(x, dtype=float)
                 kw = {} if case["reps"] is None and case.get("seed") is None else {"seed": case["seed"]}
-                args = dict(alpha=flt(case["alpha"]), reps=case["reps"], prefix=case["prefix"], quantile=flt(case["quantile"]), **kw)
+                args = dict(alpha=flt(case["alpha"]), reps=case["reps"], prefix=_flag(case, case["prefix"]), quantile=flt(case["quantile"]), **kw)
                 if dflt:
                     args = _drop_defaults(args, {"alpha": 0.05, "reps": None, "prefix": False, "quantile": 0.5, "seed": 1234567890})
                 n = nm.sample_size(x, **args)
@@ -315,7 +321,7 @@ def observe(case):
                 data = None if case["data"] is None else np.array([flt(v) for v in case["data"]], dtype=float)
                 _warm(case, spy, assertion=a, call=lambda r1, r2: a.find_sample_size(
                     data=None, prefix=False, rate_1=r1, rate_2=r2, reps=None, quantile=0.5, seed=case["seed"]))
-                args = dict(data=data, prefix=case["prefix"], rate_1=flt(case["rate_1"]), rate_2=flt(case["rate_2"]),
+                args = dict(data=data, prefix=_flag(case, case["prefix"]), rate_1=flt(case["rate_1"]), rate_2=flt(case["rate_2"]),
                             reps=case["reps"], quantile=flt(case["quantile"]), seed=case["seed"])
                 if dflt:
                     args = _drop_defaults(args, {"data": None, "prefix": False, "rate_1": None, "rate_2": None, "reps": None,
@@ -1261,6 +1267,12 @@ def with_warm(rng, case):
     return case
 
 
+def with_flag(rng, case):
+    if rng.chance(0.25):
+        case["flag_type"] = rng.choice(["np", "np", "int"])
+    return case
+
+
 def gen_options(rng, tier):
     """call forms the main stream never uses (OPTIONS_AUDIT.md): optional arguments left at their documented defaults
     (alpha = 0.05, reps = None, prefix = False, quantile = 0.5, seed = 1234567890; rate_1 = rate_2 = None;
@@ -1316,9 +1328,9 @@ def gen_main(rng, n, tier):
     for _ in range(n):
         r = rng.random()
         if r < 0.30:
-            yield gen_nm(rng, tier)
+            yield with_flag(rng, gen_nm(rng, tier))
         elif r < 0.62:
-            yield with_warm(rng, gen_find(rng, tier))
+            yield with_flag(rng, with_warm(rng, gen_find(rng, tier)))
         elif r < 0.72:
             yield gen_interleave(rng, tier)
         elif r < 0.82:
